@@ -202,3 +202,43 @@ def check_cond(ctx, rule, fi, node_ast, expr, domain, spec, what, meaning, close
         return False
     ctx.ok(rule, "%s: %s" % (fi.short, what), fi.loc(node_ast), sample={"condition": norm(expr)[:120]})
     return True
+
+
+def outcomes(g, fn_node, env, abort_only):
+    """Which ways can one function end for one assignment of its inputs?  Walks the CFG from the entry,
+    deciding every test whose operands the assignment binds (through `ev`, locals resolved to their
+    reaching straight-line definition).  A test that cannot be decided is an unrelated check: if one of
+    its edges only aborts (`abort_only(test)` names that label) the other edge is taken - the unrelated
+    checks are assumed to pass - otherwise both edges are explored.  Returns a subset of
+    {"raise", "pass"} and the undecided tests that were explored both ways."""
+    env = dict(env)
+    env["__fn__"] = fn_node
+    out, both = set(), []
+    seen = set()
+    st = [g.entry]
+    while st:
+        n = st.pop()
+        if n.id in seen:
+            continue
+        seen.add(n.id)
+        if n is g.exit or n.kind == "return":
+            out.add("pass")
+            continue
+        if n.kind in ("raise", "noreturn"):
+            out.add("raise")
+            continue
+        if n.kind == "test" and n.expr is not None:
+            try:
+                v = bool(ev(n.expr, env))
+                st += [m for m, l in n.succ if l == ("T" if v else "F")]
+                continue
+            except (Unknown, TypeError, AttributeError, KeyError, IndexError):
+                dl = abort_only(n)
+                if len(dl) == 1:
+                    st += [m for m, l in n.succ if l in ("T", "F") and l != dl[0]]
+                else:
+                    both.append(n)
+                    st += [m for m, l in n.succ if l in ("T", "F")]
+                continue
+        st += [m for m, l in n.succ if not l.startswith("exc")]
+    return out, both
